@@ -2,7 +2,8 @@
    Kernel/Stop.v: two processes, one shared event triggered at t = 2, a waiter that registers at t = 1). *)
 From Coq Require Import ZArith QArith List Bool Lia.
 From ONL Require Import Kernel.Model Kernel.Script Kernel.Keys Kernel.Inv Kernel.Order Kernel.Deliver Kernel.DeliverWf
-  Kernel.DeliverVal Kernel.StopFrame Kernel.StopInv Kernel.Stop Kernel.StopSpec Kernel.StopErase Kernel.StopSplit.
+  Kernel.DeliverVal Kernel.StopFrame Kernel.StopInv Kernel.Stop Kernel.StopSpec Kernel.StopErase Kernel.StopSplit Kernel.StopRen Kernel.StopSim
+  Kernel.StopSimCalls Kernel.StopSimStep Kernel.StopGhost Kernel.StopScript.
 Import ListNotations.
 
 (* the state after the module-level code is calm: run_until_number_spec / run_until_event_spec apply to it *)
@@ -74,4 +75,66 @@ Proof.
   - intros st [<-|[<-|[<-|[<-|[]]]]]; exact I.
   - exact R.
   - vm_compute. reflexivity.
+Qed.
+
+(* ---- split_transparent (all stop points) applies to the witness family ---- *)
+
+(* the witness programs are compiled scripts without env.peek(): parametric *)
+Example ex_parametric : parametric_codes wit_codes.
+Proof. apply compile_parametric_codes. vm_compute. reflexivity. Qed.
+
+(* module-level script code keeps a state related to itself *)
+Lemma selfsim_exec_top codes l s :
+  parametric_codes codes -> nopeek l = true -> selfsim s -> selfsim (fst (exec_top codes (Script.exec l []) s)).
+Proof.
+  intros PC Np SS. unfold exec_top.
+  assert (B : fbis (compile []) (fun i : nat => i) (length (events s)) (Script.exec l []) (Script.exec l [])).
+  { apply (frel_fbis (compile []) StopScript.SS).
+    - intros f n st st' [D ->] f' n' A L I o O. cbn [compile resume].
+      rewrite (ren_sst_agree _ _ _ _ A D). apply script_resume_rel; [exact I|eapply sst_dom_mono; eassumption|exact O].
+    - change (Script.exec l []) with (Script.exec l (ren_vals (fun i : nat => i) [])) at 2.
+      apply exec_rel; [exact Np|intros i j E; exact E|reflexivity]. }
+  destruct (simn_run_frag codes (compile []) (fun i => i) (fun i => i) PC _ _ s s (conj SS eq_refl) B) as ((S' & _) & _).
+  exact S'.
+Qed.
+
+Example ex_selfsim : selfsim wit_s0.
+Proof. unfold wit_s0. apply selfsim_exec_top; [exact ex_parametric|reflexivity|apply selfsim_init]. Qed.
+
+(* the free run never answers the internal-error result: checked for the steps it makes, then the agenda is empty *)
+Fixpoint nb_check (fuel : nat) (codes : list prog) (k : nat) (s : state) : bool :=
+  match k with
+  | O => true
+  | S j => match snd (step fuel codes s) with RBroken => false | _ => nb_check fuel codes j (fst (step fuel codes s)) end
+  end.
+
+Lemma nb_check_clean fuel codes : forall k s, nb_check fuel codes k s = true -> clean fuel codes k s.
+Proof.
+  induction k as [|k IH]; intros s H i L; [lia|]. cbn [nb_check] in H.
+  destruct i as [|i].
+  - cbn. change (step_sel true) with step. destruct (snd (step fuel codes s)); try discriminate; discriminate.
+  - rewrite free_run_S. apply IH; [|lia]. destruct (snd (step fuel codes s)); try discriminate; exact H.
+Qed.
+
+Lemma never_broken_finite fuel codes k s :
+  nb_check fuel codes k s = true -> agenda (free_run k fuel codes s) = [] -> never_broken fuel codes s.
+Proof.
+  intros H A i. destruct (Nat.lt_ge_cases i k) as [L|L]; [exact (nb_check_clean _ _ _ _ H i L)|].
+  replace i with (k + (i - k))%nat by lia. rewrite free_run_add, (free_run_empty _ _ _ _ A), (step_empty_agenda _ _ _ A). discriminate.
+Qed.
+
+Example ex_never_broken : never_broken 100 wit_codes wit_s0.
+Proof. apply (never_broken_finite 100 wit_codes 30 wit_s0); vm_compute; reflexivity. Qed.
+
+(* numeric horizons at 1 (where process 1 resumes) and at 2 (where G0 is triggered), the until-event, a single step: the
+   user-visible trace is that of run(), event ids renamed *)
+Example ex_split_transparent :
+  let plan := [SNum 1; SEv 0%nat; SNum 2; SStep 1; SNum 2; SRun] in
+  exists f, smono f /\ logs (fst (run_split 100 wit_codes plan wit_s0)) = map (ren_obs f) (logs (fst (run 100 wit_codes UNone wit_s0))).
+Proof.
+  cbn zeta. destruct (run 100 wit_codes UNone wit_s0) as [U r] eqn:R.
+  assert (Er : r = ROk) by (change r with (snd (U, r)); rewrite <- R; vm_compute; reflexivity). subst r.
+  pose proof ex_calm as (G & Ui & _ & Ns & _).
+  apply (split_transparent_run wit_codes 100 wit_s0 _ U ex_parametric ex_selfsim G Ui Ns ex_never_broken R).
+  vm_compute. reflexivity.
 Qed.
